@@ -61,6 +61,8 @@ struct Extractor {
 	std::set<const FunctionDecl*> bodiesWanted;
 	unsigned opaque = 0;
 	std::map<std::string, unsigned> opaqueKinds;
+	std::set<std::string> curMems;   // field names mentioned by the function being dumped
+	std::set<int> curCalls;          // callee ids of the function being dumped
 
 	Extractor(ASTContext& C) : Ctx(C), SM(C.getSourceManager()), PP(C.getPrintingPolicy()) {
 		PP.SuppressTagKeyword = true;
@@ -394,6 +396,7 @@ struct Extractor {
 			}
 			o["k"] = "mem";
 			o["n"] = VD->getNameAsString();
+			if (isa<FieldDecl>(VD)) curMems.insert(VD->getNameAsString());
 			if (auto* RD = dyn_cast<CXXRecordDecl>(VD->getDeclContext())) {
 				o["o"] = RD->getNameAsString();
 				o["otid"] = tyId(RD);
@@ -412,7 +415,7 @@ struct Extractor {
 			o["l"] = line;
 			o["op"] = getOperatorSpelling(C->getOperator());
 			const FunctionDecl* FD = C->getDirectCallee();
-			if (FD) o["f"] = fnId(FD);
+			if (FD) { o["f"] = fnId(FD); curCalls.insert(fnId(FD)); }
 			json::Array args;
 			unsigned start = 0;
 			if (FD && isa<CXXMethodDecl>(FD) && C->getNumArgs() > 0) {
@@ -432,6 +435,7 @@ struct Extractor {
 			const CXXMethodDecl* MD = C->getMethodDecl();
 			if (MD) {
 				o["f"] = fnId(MD);
+				curCalls.insert(fnId(MD));
 				o["obj"] = expr(C->getImplicitObjectArgument());
 				if (auto* ME = dyn_cast<MemberExpr>(C->getCallee()->IgnoreParens()))
 					if (ME->hasQualifier()) o["qual"] = true;
@@ -450,6 +454,7 @@ struct Extractor {
 			const FunctionDecl* FD = C->getDirectCallee();
 			if (FD) {
 				o["f"] = fnId(FD);
+				curCalls.insert(fnId(FD));
 				if (unsigned b = FD->getBuiltinID()) o["builtin"] = (int64_t)b;
 			} else
 				o["callee"] = expr(C->getCallee());
@@ -523,6 +528,7 @@ struct Extractor {
 			if (t >= 0) o["tid"] = t;
 			const CXXConstructorDecl* CD = C->getConstructor();
 			o["f"] = fnId(CD);
+			curCalls.insert(fnId(CD));
 			if (CD->isCopyConstructor()) o["copy"] = true;
 			if (CD->isMoveConstructor()) o["move"] = true;
 			if (C->isListInitialization()) o["list"] = true;
@@ -1097,8 +1103,17 @@ public:
 		for (auto* FD : V.defs) {
 			json::Object o = X.fnHeader(FD);
 			o["id"] = X.fnId(FD);
+			X.curMems.clear();
+			X.curCalls.clear();
 			if (auto* CD = dyn_cast<CXXConstructorDecl>(FD)) o["inits"] = X.ctorInits(CD);
 			o["body"] = X.stmt(FD->getBody());
+			{
+				json::Array ms, cs;
+				for (auto& m : X.curMems) ms.push_back(m);
+				for (int c : X.curCalls) cs.push_back((int64_t)c);
+				o["mems"] = std::move(ms);
+				o["calls"] = std::move(cs);
+			}
 			fbodies.push_back(std::move(o));
 		}
 		// function table (may grow while bodies are dumped) — fixpoint over records as well
